@@ -146,6 +146,17 @@ def run(ctx):
                 ctx.violation('cli-writes', 'result files were created or altered although the configuration is invalid (%s)' % what, {'args': args, 'files_after': sorted(after or {})})
             elif 'ERROR: AddressSanitizer' in o or 'runtime error:' in o:
                 ctx.violation('cli-sanitizer', 'sanitizer report on an invalid configuration (%s)' % what, {'args': args, 'output': o[-1500:]})
+    # ---- the same invalid configurations (and two valid controls) on the Gallina front end CliMain.cli_main: CliThrow <-> abnormal end, nothing created
+    import cli, shutil
+    dcli = os.path.join(wd, 'c15cli')
+    os.makedirs(dcli, exist_ok=True)
+    for f in (adj, one, ragged, empty, wbad):
+        shutil.copy(f, dcli)
+    metas = []
+    for i, (args, what) in enumerate(bad_cfgs + [(['--a', adj, '--k', '2'], 'valid control'), (['--a', adj, '--k', '3', '--undirected', '--assortative'], 'valid control')]):
+        rel = [os.path.basename(a) if a.startswith(wd) else a for a in args]
+        metas.append({'cid': 770000 + i, 'args': rel + ['--o', 'o%d' % i, '--s', '3', '--maxit', '5'], 'dir': dcli, 'out': os.path.join(dcli, 'o%d' % i)})
+    cli.compare_with_model(ctx, ctx.bdir, metas, name='K-CLI(model, invalid configurations)')
     ctx.oracle.update({'evaluations': n_eval, 'distinct_nontrivial': len(keys),
                        'rule': 'each base call (all 8 variants, 3 type pairs, pre-filled outputs) is mutated at every boundary: each size +-1 / emptied, K = 0,1, next square, transposed/flattened/empty u, zero r/maxit/nconv, a single vertex, two simultaneous errors; python re-statement of the documented list decides the expected code; outputs compared with their prior contents after a throw; the real binary on %d invalid configurations x {new, pre-existing output directory}. distinct = (mutation, outcome)' % len(bad_cfgs),
                        'codes_observed': codes})
